@@ -390,7 +390,7 @@ impl NetcodeClient {
             },
             self.last_packet_received_time.as_nanos(),
             self.sequence,
-            self.server_addr,
+            crate::verif::addr_text(&self.server_addr),
             self.server_addr_index,
             self.challenge_token_sequence,
             self.max_clients,
